@@ -88,6 +88,7 @@ FIXES = {  # subject prefix -> properties whose check must fire when the fix is 
 
 # fixes whose lines were changed again by a later fix: (file, text now, text before that fix)
 MANUAL_REVERT = {
+    "fix: dict and set tokens break ties": ("dask/tokenize.py", "                sorted(d.items(), key=lambda kv: (str(kv[0]), type(kv[0]).__name__))\n", "                sorted(d.items(), key=lambda kv: str(kv[0]))\n"),
     "fix: read_text without": ("dask/bag/text.py", "                + (parts[-1:] if parts[-1] else [])\n", "                + parts[-1:]\n"),
     "fix: shuffle index dtype": ("dask/array/_shuffle.py", "    dtype = np.min_scalar_type(\n        max(*chunks[axis], chunk_size_limit, *map(len, new_chunks))\n    )\n", "    dtype = np.min_scalar_type(max(*chunks[axis], chunk_size_limit))\n"),
     "fix: structured and sub-array dtypes": ("dask/tokenize.py", '        if dtype.kind == "V":\n', '        if False:\n'),
